@@ -13,6 +13,7 @@ import (
 	"math/rand"
 	"os"
 	"os/exec"
+	"os/signal"
 	"path/filepath"
 	"regexp"
 	"runtime"
@@ -368,7 +369,15 @@ func WorkerMain(ck Check, caseFile, journal string, from int) {
 	}
 	if o.CPUSeconds > 0 {
 		lim := uint64(o.CPUSeconds)
-		_ = syscall.Setrlimit(syscall.RLIMIT_CPU, &syscall.Rlimit{Cur: lim, Max: lim + 5})
+		_ = syscall.Setrlimit(syscall.RLIMIT_CPU, &syscall.Rlimit{Cur: lim, Max: lim + 30})
+		// The Go runtime ignores SIGXCPU unless somebody asks for it.
+		ch := make(chan os.Signal, 1)
+		signal.Notify(ch, syscall.SIGXCPU)
+		go func() {
+			<-ch
+			fmt.Fprintln(os.Stderr, "VW-CPU-LIMIT: RLIMIT_CPU exceeded")
+			os.Exit(97)
+		}()
 	}
 	b, err := os.ReadFile(caseFile)
 	if err != nil {
@@ -751,8 +760,11 @@ func runBatch(ck Check, o WorkerOpts, exe, scratch string, bi int, b batch, resu
 
 func isRlimitCPU(err error) bool {
 	if ee, ok := err.(*exec.ExitError); ok {
-		if ws, ok := ee.Sys().(syscall.WaitStatus); ok && ws.Signaled() {
-			return ws.Signal() == syscall.SIGXCPU
+		if ws, ok := ee.Sys().(syscall.WaitStatus); ok {
+			if ws.Signaled() {
+				return ws.Signal() == syscall.SIGXCPU
+			}
+			return ws.ExitStatus() == 97
 		}
 	}
 	return false
